@@ -10,6 +10,7 @@ rm -rf "$T"; mkdir -p "$T"
 git -C /repo worktree prune
 git -C /repo worktree add -q --detach "$T/repo" HEAD || exit 2
 if [ "$PATCH" != "-" ]; then git -C "$T/repo" apply "$(readlink -f "$PATCH")" || { echo "patch does not apply"; git -C /repo worktree remove --force "$T/repo"; exit 2; }; fi
+cp /repo/Cargo.lock "$T/repo/Cargo.lock" 2>/dev/null
 rsync -a --exclude .cache --exclude .git --exclude 'replays' /verif/ "$T/verif/"
 # reuse compiled Coq objects? no: rebuild from scratch copy (the .vo files were copied with the tree)
 find "$T/verif/harness" -name Cargo.toml | xargs sed -i "s#/repo/#$T/repo/#g"
